@@ -48,7 +48,9 @@ func init() {
 		for _, op := range strings.Split(a[1], ",") {
 			switch op[0] {
 			case 'N':
-				p := strings.Split(op[1:], "x")
+				// N<s>x<k>: k commands of one file each; N<s>g<k>: ONE command whose glob matches k files
+				glob := strings.Contains(op, "g")
+				p := strings.Split(strings.Replace(op[1:], "g", "x", 1), "x")
 				s, k := atoi(p[0]), atoi(p[1])
 				u, _ := user.New("verif", "10.0.0.9:1")
 				h := serverHandlers.NewServerHandler(u, other, limiter)
@@ -64,7 +66,14 @@ func init() {
 				for f := 0; f < k; f++ {
 					path := filepath.Join(dir, fmt.Sprintf("s%d-f%d.log", s, f))
 					os.WriteFile(path, []byte("a line\n"), 0o644)
+					if glob {
+						continue
+					}
 					cmd := "tail: " + path + " regex:noop "
+					h.Write([]byte("protocol 4.1 base64 " + base64.StdEncoding.EncodeToString([]byte(cmd)) + ";"))
+				}
+				if glob {
+					cmd := "tail: " + filepath.Join(dir, fmt.Sprintf("s%d-f*.log", s)) + " regex:noop "
 					h.Write([]byte("protocol 4.1 base64 " + base64.StdEncoding.EncodeToString([]byte(cmd)) + ";"))
 				}
 			case 'K':
